@@ -2,10 +2,11 @@
     Proved: "accepted iff in the language" for single bounds and for lists without format
     text, against a grammar written from the documentation (Spec/BoundsGrammar.v), with the
     bounds the grammar assigns; soundness of acceptance; rejection before any input; plain
-    text rendering.  For format strings ({...}) the "iff" is checked exhaustively up to a
-    length bound by the run (every string over the statement's alphabet), not proved. *)
+    text rendering; for format strings ({...}) "accepted iff in the language" against the
+    grammar [fmt_items], with the documented sub-language [fmt_doc] shown to be accepted
+    and the rendering of literal text shown to be one left-to-right pass. *)
 From TucModel Require Import Base.Bytes Model.Bounds Model.BoundsParse Model.Opt Model.Args Model.Main
-     Spec.Resolve Spec.Fields Spec.BoundsGrammar Proofs.BoundsFacts Proofs.C06 Proofs.ParseFacts Proofs.C18 Proofs.C18Iff.
+     Spec.Resolve Spec.Fields Spec.BoundsGrammar Proofs.BoundsFacts Proofs.C06 Proofs.ParseFacts Proofs.C18 Proofs.C18Iff Proofs.C18Fmt Proofs.C18Render.
 Local Open Scope Z_scope.
 
 (** i32::from_str as used by Side::from_str: optional single sign, at least one digit,
@@ -31,6 +32,33 @@ Theorem C18_list_structure :
   forall (s : bytes) (u : ublist), existsb is_brace s = false -> parse_ublist s = Some u ->
     exists bs, csv_text s bs /\ items u = mark_last (map Bound bs).
 Proof. exact parse_ublist_structure. Qed.
+
+(** format strings: the scanner accepts exactly the language [fmt_items] (literal text with
+    doubled braces, '{' list '}', and the reading of "{{" / "}}" next to a delimiting brace
+    spelled out by its side conditions) and builds exactly the items the grammar assigns *)
+Theorem C18_format_accepted_iff :
+  forall (s : bytes) (its : list bof), scan_format s false [] [] = Some its <-> fmt_items s its.
+Proof. exact scan_format_iff. Qed.
+
+(** the documented language - every '{...}' holds a list without braces, braces balance,
+    "{{" and "}}" are literal braces - is accepted, with the items it denotes *)
+Theorem C18_documented_format_is_accepted :
+  forall (s : bytes) (its : list bof), fmt_doc s its -> scan_format s false [] [] = Some its.
+Proof. exact documented_format_accepted. Qed.
+
+(** the whole of from_str on an argument holding a brace: accepted iff in the language and
+    at least one bound occurs *)
+Theorem C18_format_list_accepted_iff :
+  forall (s : bytes) (u : ublist), existsb is_brace s = true ->
+    (parse_ublist s = Some u <->
+     exists its, fmt_items s its /\ bounds_only its <> [] /\ from_vec its = Some u).
+Proof. exact parse_ublist_format_iff. Qed.
+
+(** literal text is rendered by one left-to-right pass: "{{" -> "{", "}}" -> "}",
+    backslash-n -> LF, backslash-t -> TAB, every other byte as it is *)
+Theorem C18_literal_text_rendering :
+  forall t : bytes, render_filler t = render_spec t.
+Proof. exact render_filler_is_spec. Qed.
 
 Theorem C18_accepted_bound_is_well_formed :
   forall (s : bytes) (b : ubound), parse_bound s = Some b ->
@@ -78,3 +106,14 @@ Proof.
   apply (rt_from [45;50]%N (-2)). split; [|split; [unfold in_i32; lia | lia]].
   exact (il_minus [50]%N ltac:(discriminate) ltac:(repeat constructor; unfold digit; lia)).
 Qed.
+Print Assumptions C18_format_accepted_iff.
+Print Assumptions C18_documented_format_is_accepted.
+Print Assumptions C18_format_list_accepted_iff.
+Print Assumptions C18_literal_text_rendering.
+
+(** non-vacuity: a{{{1:2=x}}}b is in the documented language: text "a{{", the bound 1:2=x,
+    text "}}b" *)
+Example C18_format_example :
+  scan_format [97;123;123;123;49;58;50;61;120;125;125;125;98]%N false [] []
+  = Some [Filler [97;123]%N; Bound (mkB (SSome 1) (SSome 2) false (Some [120]%N)); Filler [125;98]%N].
+Proof. reflexivity. Qed.
